@@ -8,12 +8,12 @@ ob = json.load(open(V + '/lean/obligations.json'))
 CLAIMED = sys.argv[1].split(',') if len(sys.argv) > 1 else []
 MODEL = {
  'C01': ('linear_regression / optimal_scaling / chi_squared / Models.fit (ndim 2) / get_log_fluxes / get_av', 'Fitter.fit on generated distance-independent packages'),
- 'C02': ('distance grid, clamped aperture interpolation x d^-2, per-distance 1-D fit, first argmin (Models.read + Models.fit ndim 3)', 'Fitter.fit on generated aperture-dependent packages of both formats'),
+ 'C02': ('distance grid with pinned ends, clamped aperture interpolation x d^-2, per-distance 1-D fit, first argmin (Models.read + Models.fit ndim 3), plus the cube / distance-dependent pipeline model (cube write/read, convolve or nearest slice, fit, listing)', 'Fitter.fit on generated aperture-dependent packages of both formats, and the whole cube pipeline against the pipeline model'),
  'C03': ('flag masks, log transform, limit penalties (get_log_fluxes, chi_squared, Models.fit)', 'Fitter.fit over enumerated flag vectors, paired runs differing only in ignored / equivalent content'),
  'C04': ('argsort + gather of parallel arrays over IEEE-extended floats (FitInfo.sort) and the row assembly of Models.fit', 'FitInfo.sort on built objects and end-to-end fits with ties / 1e30 models'),
  'C05': ('FitInfo.keep over IEEE-extended floats (count-then-slice)', 'FitInfo.keep on enumerated ranked chi^2 vectors x selectors, and pairs of selectors'),
  'C06': ('integrate / integrate_subset / Filter.normalize / Filter.rebin / flux and variance sums', 'Filter.rebin and convolve_model_dir on generated filters and SED grids in either order'),
- 'C07': ('order_to_match / sort_to_match with its post-check, both convolution paths', 'convolve_model_dir on per-file and cube packages built from the same SEDs, fits from each variant'),
+ 'C07': ('order_to_match / sort_to_match with its post-check, both convolution paths; and the resolved-source rule (find_radius_sigma over IEEE-extended floats, per-band mask, chi^2 reset, first argmin over kept distances) on top of the C02 model', 'convolve_model_dir on per-file and cube packages built from the same SEDs, fits from each variant (memory-mapped or not, remove_resolved on / off, several fitters alive), re-convolution histories'),
  'C08': ('exact-data recovery of fit2 / fit3 and ranking, plus the end-to-end pipeline model runPipeline (SED write/read, rebin, convolve, sort_to_match, Models.read, fit, sort, keep, filter_table, listing) with row-integrity / order-invariance / planted-model composition theorems', 'whole pipeline: convolve, synthesise, fit(), write_parameters on planted data (both formats, both modes, staged histories), and every row of every listing of random per-file packages against the pipeline model'),
  'C09': ('filter_table (isin / rank / gather / post-check), ranges, counts', 'write_parameters, write_parameter_ranges, extract_parameters, filter_table on permuted parameter files'),
  'C10': ('fit() record loop, frame-level writer/reader, heap state machine of post-processing calls', 'fit() output files read back, three input forms, histories of post-processing calls with caller-object digests'),
@@ -22,7 +22,7 @@ MODEL = {
  'C13': ('clamped linear interpolation over aperture tables, wavelength-dependent variant', 'ConvolvedFluxes.interpolate, SED.interpolate, SED.interpolate_variable'),
  'C14': ('np.interp with zero / edge fill and the -0.4 normalisation (Extinction.get_av)', 'Extinction.get_av after construction, pickling, table conversion, file reading, unit changes'),
  'C15': ('convert_flux as two steps through erg/cm^2/s with unit scale factors', 'SED.write + SED.read(unit_flux=...) over all unit pairs'),
- 'C16': ('window -> index range, chunk loop, nearest-wavelength selection', 'convolve_model_dir_monochromatic over all chunk sizes and windows; cube packages fitted at wavelengths'),
+ 'C16': ('window -> index range, chunk loop, existing-file refusal (overwrite), nearest-wavelength selection', 'convolve_model_dir_monochromatic over all chunk sizes and windows; cube packages fitted at wavelengths'),
  'C17': ('distance / extinction scaling, aperture per filter, curve bookkeeping per display mode', 'plot(..., output_dir=None) LineCollection segments on cube packages'),
  'C18': ('single-pass partition by best chi^2 or chi^2 per point (filter_output)', 'filter_output on files and lists, re-runs on the same paths, records read back'),
  'C19': ('opcode-skeleton pickle frame scanner and reader (EOFError vs other errors)', 'FitInfoFile iteration over every truncation of real fit files'),
